@@ -244,6 +244,13 @@ Theorem C08_state_invariant_initial : forall b, buf_wf b -> buf_valid b -> est_i
 Proof. exact init_inv. Qed.
 Print Assumptions C08_state_invariant_initial.
 
+(* the interpreter is total on such states: no program of modelled commands with valid typed text ever hits the
+   out-of-fuel result of the C07 scanners (also on the empty buffer), and it ends in such a state again -- the
+   `= Some ...` hypotheses of the theorems of this file are always satisfiable *)
+Theorem C08_exec_total : forall rows cs e, est_inv e -> Forall cmd_valid cs -> exists e', exec rows cs e = Some e' /\ est_inv e'.
+Proof. exact exec_total. Qed.
+Print Assumptions C08_exec_total.
+
 (* ---------- C08_refines (PARTIAL) ---------- *)
 (* Full statement aimed at (DESIGN section 6): for every program of x X D C s S Y J r ~ g~ gu gU < > p P and inserts,
    text, cursor and registers of the interpreter equal those of a smaller declarative reference.
